@@ -661,28 +661,28 @@ func (c *Conn) readRecordOrCCS(expectChangeCipherSpec bool) error {
 		c.in.seq[6] = hdr[9]
 		c.in.seq[7] = hdr[10]
 
+		// 旧 epoch 的记录（例如对端重传的明文 CCS）无法用当前 epoch 的密钥解密，
+		// 必须在解密之前识别并丢弃；否则一次合法的重传会被当作 MAC 错误而中断连接。
+		// 2*MSL 驻留期内收到旧 epoch 的 CCS 说明对端没有收到我方最后一 flight：重传之。
+		if epoch < c.readEpoch {
+			c.dwellRetransmit(typ)
+			c.rawInputBuf = c.rawInputBuf[recordHeaderLen+n:]
+			continue
+		}
+		// 未来 epoch 的记录（乱序到达：对端的 CCS 尚未处理）同样无法解密，只能丢弃；
+		// epoch 只能由 ChangeCipherSpec 推进，不能由一条未经认证的记录推进。
+		if epoch > c.readEpoch {
+			c.rawInputBuf = c.rawInputBuf[recordHeaderLen+n:]
+			continue
+		}
+
 		// 解密 + MAC 验证
 		record := c.rawInputBuf[:recordHeaderLen+n]
 		data, typ, err := c.in.decrypt(record)
 		if err != nil {
 			return c.in.setErrorLocked(c.sendAlert(err.(alert)))
 		}
-
 		// 重放检查（解密成功后执行，RFC 6347 §4.1.2.6）
-		if epoch < c.readEpoch {
-			// 旧 epoch：静默丢弃，继续下一条记录
-			c.rawInputBuf = c.rawInputBuf[recordHeaderLen+n:]
-			continue
-		}
-		if epoch > c.readEpoch {
-			c.readEpoch = epoch
-			c.readSeq = 0
-			windowSize := defaultReplayWindowSize
-			if c.config != nil && c.config.ReplayWindow > 0 {
-				windowSize = c.config.ReplayWindow
-			}
-			c.replayWindow = newReplayWindow(windowSize)
-		}
 		if !c.replayWindow.check(seqNum) {
 			// 重放检测：静默丢弃
 			c.rawInputBuf = c.rawInputBuf[recordHeaderLen+n:]
@@ -815,6 +815,17 @@ func (c *Conn) readRecordOrCCS(expectChangeCipherSpec bool) error {
 			}
 			return nil
 		}
+	}
+}
+
+// dwellRetransmit 在 2*MSL 驻留期内收到旧 epoch 的 ChangeCipherSpec 时重传最后一 flight
+// （对端重传其 flight 说明它没有收到我方的最后一 flight）。
+func (c *Conn) dwellRetransmit(typ recordType) {
+	if typ != recordTypeChangeCipherSpec || !c.handshakeComplete() || c.dwellDeadline.IsZero() {
+		return
+	}
+	if time.Now().Before(c.dwellDeadline) && len(c.flightRetransmit) > 0 {
+		c.pconn.WriteTo(c.flightRetransmit, c.remoteAddr)
 	}
 }
 
@@ -1453,26 +1464,28 @@ func (c *Conn) ReadFrom(p []byte) (n int, addr net.Addr, err error) {
 		c.in.seq[6] = hdr[9]
 		c.in.seq[7] = hdr[10]
 
+		// 旧 epoch：解密之前丢弃；驻留期内旧 epoch 的 CCS 触发最后一 flight 的重传
+		if epoch < c.readEpoch {
+			// ReadFrom 只处理数据报中的第一条记录：对端重传的 flight 可能以握手记录开头
+			// （会话重用时为 ServerHello），其后才是 CCS，因此旧 epoch 的握手记录同样触发重传
+			t := recordType(hdr[0])
+			if t == recordTypeHandshake {
+				t = recordTypeChangeCipherSpec
+			}
+			c.dwellRetransmit(t)
+			continue
+		}
+		// 未来 epoch：握手完成后 epoch 不再变化，丢弃
+		if epoch > c.readEpoch {
+			continue
+		}
+
 		record := c.rawInputBuf[:recordHeaderLen+recLen]
 		plaintext, actualTyp, err := c.in.decrypt(record)
 		if err != nil {
 			continue
 		}
-
 		// 重放检查（解密成功后执行，RFC 6347 §4.1.2.6）
-		if epoch < c.readEpoch {
-			// 旧 epoch：静默丢弃
-			continue
-		}
-		if epoch > c.readEpoch {
-			c.readEpoch = epoch
-			c.readSeq = 0
-			windowSize := defaultReplayWindowSize
-			if c.config != nil && c.config.ReplayWindow > 0 {
-				windowSize = c.config.ReplayWindow
-			}
-			c.replayWindow = newReplayWindow(windowSize)
-		}
 		if !c.replayWindow.check(seqNum) {
 			// 重放检测：静默丢弃
 			continue
